@@ -1,6 +1,7 @@
 package main
 
 import (
+	"strings"
 	"sync/atomic"
 	"sync"
 	"sort"
@@ -447,7 +448,103 @@ func runSimpleConc(seed int64, nclients, nops int, out string) {
 	srv.VerifLog().Shutdown()
 }
 
+// runKvsConc: concurrent multi-puts on overlapping key sets and gets; the history is searched for a sequential
+// order over the extracted model (a get returns the latest put, a multi-put is one step).
+func runKvsConc(seed int64, nclients, nops int, out string) {
+	f, _ := os.Create(out)
+	defer f.Close()
+	w := bufio.NewWriterSize(f, 1<<20)
+	defer w.Flush()
+	rng := rand.New(rand.NewSource(seed))
+	const sz = 760
+	d := NewSDisk(sz + 16)
+	store := kvs.MkKVS(d, sz)
+	fmt.Fprintf(w, "KI %d\n", sz)
+	fmt.Fprintf(w, "M conc-begin %d\n", nclients)
+	type ev struct {
+		client   int
+		inv, ret int64
+		call     string
+		rep      string
+	}
+	var clock int64
+	var mu sync.Mutex
+	var hist []ev
+	var wg sync.WaitGroup
+	for c := 0; c < nclients; c++ {
+		wg.Add(1)
+		crng := rand.New(rand.NewSource(rng.Int63()))
+		go func(c int) {
+			defer wg.Done()
+			for i := 0; i < nops; i++ {
+				id := 100 + c*1000 + i
+				e := ev{client: c}
+				if crng.Intn(2) == 0 {
+					k := uint64(513 + crng.Intn(4))
+					e.call = fmt.Sprintf("KG %d %d", id, k)
+					e.inv = atomic.AddInt64(&clock, 1)
+					func() {
+						defer func() {
+							if x := recover(); x != nil {
+								e.rep = "KR panic"
+							}
+						}()
+						p, ok := store.Get(k)
+						e.rep = fmt.Sprintf("KR %d %s", b2i(ok), hexs(p.Val[:8]))
+					}()
+				} else {
+					n := 2 + crng.Intn(3)
+					var pairs []kvs.KVPair
+					var sb strings.Builder
+					fmt.Fprintf(&sb, "KP %d %d", id, n)
+					for j := 0; j < n; j++ {
+						k := uint64(513 + (crng.Intn(4)+j)%4)
+						v := make([]byte, 4096)
+						v[0], v[1], v[2] = byte(id), byte(id>>8), byte(j)
+						pairs = append(pairs, kvs.KVPair{Key: k, Val: v})
+						fmt.Fprintf(&sb, " %d %s", k, hexs(v[:8]))
+					}
+					e.call = sb.String()
+					e.inv = atomic.AddInt64(&clock, 1)
+					func() {
+						defer func() {
+							if x := recover(); x != nil {
+								e.rep = "KR panic"
+							}
+						}()
+						ok := store.MultiPut(pairs)
+						e.rep = fmt.Sprintf("KR %d -", b2i(ok))
+					}()
+				}
+				e.ret = atomic.AddInt64(&clock, 1)
+				mu.Lock()
+				hist = append(hist, e)
+				mu.Unlock()
+				if crng.Intn(3) == 0 {
+					runtime.Gosched()
+				}
+			}
+		}(c)
+	}
+	wg.Wait()
+	sort.Slice(hist, func(i, j int) bool { return hist[i].inv < hist[j].inv })
+	for _, e := range hist {
+		fmt.Fprintf(w, "H %d %d %d\n%s\n%s\n", e.client, e.inv, e.ret, e.call, e.rep)
+	}
+	fmt.Fprintf(w, "M conc-end ok\n")
+	store.Delete()
+}
+
 func init() {
+	extraCmds["kvsconc"] = func(args []string) {
+		fs := flag.NewFlagSet("kvsconc", flag.ExitOnError)
+		seed := fs.Int64("seed", 1, "")
+		nc := fs.Int("clients", 3, "")
+		n := fs.Int("nops", 8, "")
+		out := fs.String("out", "kvsconc.trace", "")
+		fs.Parse(args)
+		runKvsConc(*seed, *nc, *n, *out)
+	}
 	extraCmds["simpleconc"] = func(args []string) {
 		fs := flag.NewFlagSet("simpleconc", flag.ExitOnError)
 		seed := fs.Int64("seed", 1, "")
